@@ -42,6 +42,7 @@ const (
 	OpSub
 	OpForward
 	OpHijack
+	OpBlob
 )
 
 // Op is one step of a handler script.
@@ -112,6 +113,8 @@ func (o Op) String() string {
 		return fmt.Sprintf("Forward(%q)", o.S2)
 	case OpHijack:
 		return "Hijack"
+	case OpBlob:
+		return fmt.Sprintf("Blob(%d,%q)", o.N, o.S)
 	}
 	return "?"
 }
@@ -180,7 +183,8 @@ type Ctx interface {
 	Req() *http.Request
 	SetStatus(code int)
 	SetHeader(k, v string)
-	WriteString(s string) // Context.WriteString: panics with the write error, like rux
+	WriteString(s string)         // Context.WriteString: panics with the write error, like rux
+	Blob(status int, data string) // Context.Blob: status, content type, then the data if there is any
 	Length() int
 	Set(k string, v any)
 	Data() map[string]any
@@ -350,6 +354,9 @@ func Run(s *Script, c Ctx, tr *Trace) {
 				_, _, err := hj.Hijack()
 				tr.Add("  %s hijacks err=%v", s.Name, err != nil)
 			}
+		case OpBlob:
+			c.Blob(o.N, o.S)
+			tr.Add("  %s Blob(%d, %d bytes)", s.Name, o.N, len(o.S))
 		case OpForward:
 			tr.Add("  %s forwards to %q", s.Name, o.S2)
 			c.Forward(o.S2)
@@ -425,6 +432,7 @@ func (r *RCtx) Req() *http.Request                      { return r.C.Req }
 func (r *RCtx) SetStatus(code int)                      { r.C.SetStatus(code) }
 func (r *RCtx) SetHeader(k, v string)                   { r.C.SetHeader(k, v) }
 func (r *RCtx) WriteString(s string)                    { r.C.WriteString(s) }
+func (r *RCtx) Blob(status int, data string)            { r.C.Blob(status, "text/x-blob", []byte(data)) }
 func (r *RCtx) Length() int                             { return r.C.Length() }
 func (r *RCtx) Set(k string, v any)                     { r.C.Set(k, v) }
 func (r *RCtx) Data() map[string]any                    { return r.C.Data() }
@@ -504,6 +512,13 @@ func (m *MCtx) Resp() http.ResponseWriter { return m.resp }
 func (m *MCtx) Req() *http.Request        { return m.Request }
 func (m *MCtx) SetStatus(code int)        { m.W.WriteHeader(code) }
 func (m *MCtx) SetHeader(k, v string)     { m.resp.Header().Set(k, v) }
+func (m *MCtx) Blob(status int, data string) {
+	m.resp.WriteHeader(status)
+	m.resp.Header().Set("Content-Type", "text/x-blob")
+	if len(data) > 0 {
+		m.WriteString(data)
+	}
+}
 func (m *MCtx) WriteString(s string) {
 	if _, err := m.resp.Write([]byte(s)); err != nil {
 		panic(err)
